@@ -224,6 +224,14 @@ pub fn run(case: &Value) -> Vec<String> {
             obs("default", format!("{:?}", Leaf::default()), format!("{:?}", MultiRef::<Leaf>::default()));
             let c2 = wrapped.clone();
             obs("clone_shares", "true".to_string(), std::sync::Arc::ptr_eq(&*wrapped, &*c2).to_string());
+            // Clone::clone_from is cloning too: into a target nobody else holds, and into the slots of a Vec / an Option
+            let mut target = MultiRef::new(Leaf { value: "previous".to_string() });
+            target.clone_from(&wrapped);
+            obs("clone_from_shares", "true".to_string(), std::sync::Arc::ptr_eq(&*wrapped, &*target).to_string());
+            let src = vec![wrapped.clone()];
+            let mut dst = vec![MultiRef::new(Leaf { value: "previous".to_string() })];
+            dst.clone_from(&src);
+            obs("clone_from_vec_shares", "true".to_string(), std::sync::Arc::ptr_eq(&*src[0], &*dst[0]).to_string());
             if probe == "restricted" {
                 // inside Option and Vec
                 let items: Vec<Leaf> = (0..count).map(|_| bare.clone()).collect();
